@@ -54,3 +54,20 @@ Definition ordered_otherwise : list (string * string) :=
 Definition lockset_ok (sk : list (string * string * list access)) : bool :=
   forallb (fun e => let '(fn, v, accs) := e in
                     existsb (fun x => String.eqb (fst x) fn && String.eqb (snd x) v) ordered_otherwise || var_ok accs) sk.
+
+(* ---------- process-wide state ---------- *)
+(* what the translator lists for every package-level variable of the library (Gen/SharedState.v): package, name, form of the
+   initialiser, number of places in its package where it is written after initialisation (assigned, index-assigned,
+   incremented, deleted from, copied into, address taken) *)
+Definition shared_var := (string * string * string * nat)%type.
+
+(* initialiser forms whose values are immutable once built, or documented safe for use by several goroutines:
+   compiled regular expressions, reflect.Type values, error values, constants, a time.Time value, map / slice literals
+   (tables - read-only provided they are never written, which is the second half of the test) and mutexes *)
+Definition benign_kinds : list string :=
+  ["regexp"; "reflect-type"; "error"; "constant"; "time-value"; "map-literal"; "slice-literal"; "mutex"].
+
+Definition benign (e : shared_var) : bool :=
+  let '(_, _, k, w) := e in Nat.eqb w 0 && existsb (String.eqb k) benign_kinds.
+
+Definition shared_ok (l : list shared_var) : bool := forallb benign l.
